@@ -412,6 +412,13 @@ def run(F, R):
                 # the decoding function is named in the mapping closure, or in a local fn item nested in get_time
                 nested = [b2 for b2 in c.bodies if b2["id"].startswith(b["id"] + "::") and b2.get("kind") == "fn"]
                 inner = [x[1]["s"] for cb in list(cl) + nested for x in walk(BV.of(cb).trace_local(0)) if x[0] == "const"]
+                # .. or applied anywhere in an `async move { .. }` block / closure of get_time (called, or handed on as a fn item)
+                for cb in list(cl) + nested + [b2 for b2 in c.bodies if b2.get("parent") in [x_["id"] for x_ in cl]]:
+                    v3 = BV.of(cb)
+                    for _, t3 in v3.calls():
+                        inner.append(lib.norm(t3.get("callee") or ""))
+                        for a3 in t3.get("args", []):
+                            inner += [x[1].get("s", "") for x in walk(v3.trace_op(a3)) if x[0] == "const" and isinstance(x[1], dict)]
                 ok = any(n.endswith("Storage::get_int") for n in names) and any("micros_from_epoch_to_system_time" in s for s in inner)
                 # .. for every stored value: no filter or test between the stored integer and the decoder
                 allv = [v] + [BV.of(cb) for cb in list(cl) + nested]
